@@ -24,6 +24,9 @@ EXTRA = [
     ("hdr-comment", "[Metadata]//x"), ("hdr-nested", "[[General]]"), ("nbsp", " "),
     ("ff-line", "\x0c"), ("rec-key", "key"), ("slash", "/"), ("hdr-cr", "[Events]\r"),
     ("u3000-hdr", "[Editor]　"), ("rec-colon", "Title: Re:Zero"),
+    # non-ASCII records whose UTF-16 forms contain 0x0A / 0x00 bytes in awkward places
+    ("rec-cjk-gurmukhi", "TitleUnicode:一ਅક"), ("rec-0100-0a05", "Title:xĀਅy"), ("rec-010a", "Artist:aĊb"), ("rec-4e0a", "Tags:上海 上"),
+    ("rec-0a0a", "Source:ਊਊ"), ("rec-astral", "Creator:𐐊😊"), ("rec-3000-0a41", "Version:　ੁ"), ("cjk-comment", "// 一ਅ"),
 ] + [("hdr-" + h, h) for h in HEADERS]
 
 
@@ -52,7 +55,7 @@ class C05(Property):
     ]
     assumptions = [
         "theorems are about the Lean model; the model is compared with the implementation only on the generated files of this run",
-        "the property-level oracle (harness prop frame) judges UTF-8 inputs only; other encodings are compared model-vs-implementation here and judged under C10",
+        "the property-level oracle (harness prop frame) transcodes UTF-16 inputs with std's String::from_utf16 and applies the same text-level reading",
     ]
     nontrivial_rule = ("files assembled from the line alphabet (exhaustive to a bounded length, random beyond), the bundled maps, "
                        "in four encodings with LF/CRLF; non-trivial = at least one line reached a section parser")
@@ -73,7 +76,7 @@ class C05(Property):
             text = join_lines([t for _, t in kinds], rng=rng)
             enc = rng.choice(["utf8", "utf8", "utf8bom", "utf16le", "utf16be"])
             data = encodings(text)[enc]
-            cases.append(Case("frame " + hexs(data), prop=enc in ("utf8", "utf8bom"), tags=("random", enc)))
+            cases.append(Case("frame " + hexs(data), tags=("random", enc)))
         for f in bundled_files():
             data = open(f, "rb").read()
             cases.append(Case("frame " + hexs(data), tags=("bundled",)))
